@@ -12,6 +12,7 @@ mod compile;
 mod dnnf;
 mod dtree;
 mod ff;
+mod hasher;
 mod lattice;
 mod lru;
 mod order;
@@ -34,6 +35,7 @@ pub fn run_case(c: &Value) -> CaseResult {
         "poly_ops" => poly::run(c),
         "dtree_cnf" => dtree::run(c),
         "vtree_mgr" => vtree::run(c),
+        "hasher_hist" => hasher::run(c),
         "lat_eu" | "lat_real" | "lat_bool" | "lat_rational" => lattice::run(c),
         "compile_expr" | "compile_cnf" | "compile_sdd" => compile::run(c),
         _ => Err(format!("unknown case kind {kind}")),
@@ -89,6 +91,7 @@ fn main() {
                 "poly" => poly::candidates(seed),
                 "dtree" => dtree::candidates(seed),
                 "vtree" => vtree::candidates(seed),
+                "hasher" => hasher::candidates(seed),
                 "lattice" => lattice::candidates(seed),
                 "compile" => compile::candidates(seed),
                 _ => vec![],
